@@ -214,3 +214,85 @@ func vh_C04_two_callers_cut() {
 	vAssert(err != nil, "an operation started after the loss returns an error")
 	c.Close()
 }
+
+// a two-chunk concurrent ReadAt in flight when the connection is lost
+type vCutDataPeer struct {
+	vCutPeer
+	fullCount int
+}
+
+func (p *vCutDataPeer) Write(b []byte) (int, error) {
+	k := p.writes
+	p.writes++
+	if k >= p.failFrom {
+		return 0, io.ErrClosedPipe
+	}
+	p.buf = append(p.buf, b...)
+	for len(p.buf) >= 4 {
+		l := int(vBE32(p.buf))
+		if len(p.buf) < 4+l {
+			break
+		}
+		frame := p.buf[4 : 4+l]
+		p.buf = p.buf[4+l:]
+		id := frame[1:5]
+		reply := refFrame(sshFxpData, append(append([]byte{}, id...), 0, 0, 0, 1, 0x5a))
+		if p.closed {
+			continue
+		}
+		n := len(reply)
+		if n > p.budget {
+			n = p.budget
+		}
+		if n > 0 {
+			p.out <- reply[:n]
+		}
+		p.budget -= n
+		if n == len(reply) {
+			p.fullCount++
+		}
+		if p.budget == 0 {
+			p.finish()
+		}
+	}
+	return len(b), nil
+}
+
+const vDataReplyLen = 4 + 1 + 4 + 4 + 1
+
+// Not registered: >480k paths in 13 min without finishing (no violation in 340k complete traces).
+//
+//verif:atomic-invisible
+//verif:tier manual
+func vh_C04_readat_in_flight() {
+	out := make(chan []byte, 4)
+	peer := &vCutDataPeer{}
+	peer.out, peer.full = out, map[string]bool{}
+	peer.budget = [6]int{0, 3, vDataReplyLen - 1, vDataReplyLen, vDataReplyLen + 5, 2 * vDataReplyLen}[vChoice(6)]
+	peer.failFrom = [3]int{0, 1, 99}[vChoice(3)]
+	if peer.budget == 0 {
+		peer.finish()
+	}
+	c := &Client{clientConn: clientConn{conn: conn{Reader: &vPipeReader{ch: out}, WriteCloser: peer},
+		inflight: make(map[uint32]chan<- result), closed: make(chan struct{})}, ext: map[string]string{}, maxPacket: 1, maxConcurrentRequests: 2}
+	c.clientConn.wg.Add(1)
+	go func() {
+		defer c.clientConn.wg.Done()
+		if err := c.clientConn.recv(); err != nil {
+			c.clientConn.broadcastErr(err)
+		}
+	}()
+	f := &File{c: c, path: "/f", handle: "h"}
+	b := make([]byte, 2)
+	n, err := f.ReadAt(b, 0) // returns (a hang is a deadlock in the engine)
+	vAssert(n >= 0 && n <= 2, "count within buffer")
+	if err == nil {
+		vAssert(n == 2 && peer.fullCount == 2 && b[0] == 0x5a && b[1] == 0x5a, "success only with both replies received completely")
+	}
+	if peer.fullCount < 2 {
+		vAssert(err != nil, "a lost reply makes the transfer fail")
+	}
+	peer.finish()
+	vAssert(c.Wait() != nil, "Wait returns the cause")
+	c.Close()
+}
